@@ -3,10 +3,12 @@
 sequential specification which is proved to be an execution of the model; scheduler oracle on the real arena functions)."""
 import os
 import vcommon as V
+from checks.C16 import trval
 
 TRUSTED = ['Lean 4 kernel', 'hand-written protocol model MiVerif/Model/BitmapC.lean (abstract bits + ghost runs; the mask arithmetic of bitmap.c is abstracted: a chunk is "the next bits of the run")',
            'tie 1: step-wise check of the real bitmap functions against BitSeq (sequential); tie 2: the log of every atomic operation (CAS, fetch-and, store) on the arena in-use bitmap during concurrent _mi_arena_alloc_aligned / _mi_arena_free under the deterministic scheduler is replayed through BitmapC.exec (proved sound: exec_sound, run_inv); plus scheduler search with end-state oracles',
-           'sequentially consistent atomics; hooks/verif_hooks.h + harness/vsched.h']
+           'sequentially consistent atomics; hooks/verif_hooks.h + harness/vsched.h',
+           'translator extract/translate.py for mi_bitmap_mask_ / mi_bitmap_index_* (validated against the compiled functions on every run, every count x bit index)']
 
 def run(chk):
     chk.trusted = TRUSTED
@@ -18,6 +20,8 @@ def run(chk):
         chk.broken_tie('lean driver does not build', log[-1500:])
     thorough = chk.tier == 'thorough'
     with V.Scratch() as d:
+        # T1 for the mask / index arithmetic the theorems generated_bitmap_* speak about: generated Lean vs compiled C (every count x bit index)
+        trval(chk, d, nrand=300)
         hs = os.path.join(d, 'c14s')
         ok, log = V.cc_harness(os.path.join(V.HARNESS, 'c14.c'), hs, flags=list(V.RELEASE) + ['-DVERIF_STATIC_C="%s/src/static.c"' % V.REPO])
         if not ok:
